@@ -16,6 +16,10 @@
 (*            label is a special scope (<if>, <else>, <while>)                    *)
 (*   cells  : Seq(value)    every variable is a shared, mutable pair (Gc cell)   *)
 (*   lists  : Seq(Seq(value)) vectors are shared references into this heap       *)
+(*   maps   : Seq(Seq([k, v]))  maps are shared references into this heap        *)
+(*   unord  : ids of lists produced by keys / values / pairs of a map: their      *)
+(*            order is the implementation's hash order, which the model does not  *)
+(*            prescribe (such a list is never compared as text)                   *)
 (*   objs   : Seq([cls, vars : name -> cell])  objects: make_object keeps the    *)
 (*            variable mapping of the frame of the class function (fields and    *)
 (*            `Class::method` function values), sharing its cells               *)
@@ -39,8 +43,8 @@ Act(fi, args, cb) == [fi |-> fi, ip |-> 0, ops |-> <<>>, sp |-> 0, args |-> args
 FnFrame == [blk |-> FALSE, vars |-> NoFrame]
 BlkFrame == [blk |-> TRUE, vars |-> NoFrame]
 
-Boot0(entry) == [acts |-> <<Act(entry, <<>>, NoCb)>>, frames |-> <<FnFrame>>, cells |-> <<>>, lists |-> <<>>, objs |-> <<>>,
-                exports |-> NoFrame2, modcache |-> {},
+Boot0(entry) == [acts |-> <<Act(entry, <<>>, NoCb)>>, frames |-> <<FnFrame>>, cells |-> <<>>, lists |-> <<>>, maps |-> <<>>, objs |-> <<>>,
+                exports |-> NoFrame2, modcache |-> {}, unord |-> {},
                 out |-> <<>>, pr |-> <<>>, st |-> "run", why |-> ""]
 
 (* the entry file is loaded (and registered) before it runs *)
@@ -67,17 +71,25 @@ PushV(a, v) == [a EXCEPT !.ops = Append(@, v)]
 TopV(a) == a.ops[Len(a.ops)]
 PopV(a) == [a EXCEPT !.ops = SubSeq(@, 1, Len(@) - 1)]
 View(id, ix) == [t |-> "view", id |-> id, ix |-> ix]
-HeapOf(m) == [St0 EXCEPT !.lists = m.lists]     \* what MSLang's Show / ValEq / BinOp look at
+HeapOf(m) == [St0 EXCEPT !.lists = m.lists, !.maps = m.maps]     \* what MSLang's Show / ValEq / BinOp / Builtin look at
 (* Primitive::move_out_of_heap_primitive *)
 CView(c) == [t |-> "cview", c |-> c]
+MView(id, k) == [t |-> "mview", id |-> id, k |-> k]     \* HeapPrimitive::MapPtr: a map and a key (the entry may not exist)
+MapHas(m, p) == MapFind(m.maps[p.id], 1, p.k, HeapOf(m)) # 0
 VMod(file) == [t |-> "mod", file |-> file]       \* Primitive::Module: a reference to the file's (growing) export table
 ExportsOf(m, file) == IF file \in DOMAIN m.exports THEN m.exports[file] ELSE NoFrame
 AddExport(m, file, n, c) == [m EXCEPT !.exports = [f \in DOMAIN m.exports \cup {file} |->
                                                     IF f = file THEN Bind(ExportsOf(m, file), n, c) ELSE m.exports[f]]]
-Deref(m, v) == IF v.t = "view" THEN m.lists[v.id][v.ix + 1] ELSE IF v.t = "cview" THEN m.cells[v.c] ELSE v
-IsPtr(v) == v.t \in {"view", "cview"}
+Deref(m, v) == IF v.t = "view" THEN m.lists[v.id][v.ix + 1] ELSE IF v.t = "cview" THEN m.cells[v.c]
+               ELSE IF v.t = "mview" THEN (LET j == MapFind(m.maps[v.id], 1, v.k, [St0 EXCEPT !.lists = m.lists, !.maps = m.maps]) IN
+                                           IF j = 0 THEN VNil ELSE m.maps[v.id][j].v)
+               ELSE v
+IsPtr(v) == v.t \in {"view", "cview", "mview"}
+Dangling(m, v) == v.t = "mview" /\ MapFind(m.maps[v.id], 1, v.k, [St0 EXCEPT !.lists = m.lists, !.maps = m.maps]) = 0
 (* write through a pointer *)
-PtrSet(m, p, v) == IF p.t = "view" THEN [m EXCEPT !.lists[p.id][p.ix + 1] = v] ELSE [m EXCEPT !.cells[p.c] = v]
+PtrSet(m, p, v) == IF p.t = "view" THEN [m EXCEPT !.lists[p.id][p.ix + 1] = v]
+                   ELSE IF p.t = "mview" THEN [m EXCEPT !.maps[p.id] = MapPut(@, p.k, v, [St0 EXCEPT !.lists = m.lists, !.maps = m.maps])]
+                   ELSE [m EXCEPT !.cells[p.c] = v]
 DerefAll(m, xs) == [k \in 1..Len(xs) |-> Deref(m, xs[k])]
 
 (* Stack::find_name_in_function: from the top frame down to and including the frame of the *)
@@ -140,11 +152,15 @@ BinResult(m, op, l, r) == BinOp(IF op = "=" THEN "==" ELSE op, Deref(m, l), Dere
 (* the hook's name of the Primitive variant of a printed scalar ("" = not compared) *)
 KindName(v) == CASE v.t = "int" -> "Int" [] v.t = "bool" -> "Bool" [] v.t = "str" -> "Str" [] OTHER -> ""
 (* built-in methods the machine runs through MSLang!Builtin (those that do not call back into bytecode) *)
-BuiltinNames == {"len", "push", "remove", "reverse", "clear", "clone", "join", "index_of", "is_closure"}
+BuiltinNames == {"len", "push", "remove", "reverse", "clear", "clone", "join", "index_of", "is_closure",
+                 "contains_key", "replace", "keys", "values", "pairs"}
 VoidBuiltins == {"push", "reverse", "clear"}
+(* a position inside a list whose order the model does not prescribe (keys / values / pairs of a map): the value *)
+(* may be moved around and compared with nil, but never shown or computed with                                   *)
+Fuzzy(v) == "fz" \in DOMAIN v
 RECURSIVE HasFn(_, _, _)
 HasFn(m, v, fuel) == LET d == Deref(m, v) IN
-                     d.t \in {"fn", "obj", "bfn", "mod"} \/ (d.t = "list" /\ fuel > 0 /\ \E k \in 1..Len(m.lists[d.id]) : HasFn(m, m.lists[d.id][k], fuel - 1))
+                     Fuzzy(d) \/ d.t \in {"fn", "obj", "bfn", "mod", "map"} \/ (d.t = "list" /\ d.id \in m.unord) \/ (d.t = "list" /\ fuel > 0 /\ \E k \in 1..Len(m.lists[d.id]) : HasFn(m, m.lists[d.id][k], fuel - 1))
 
 (* one instruction *)
 Exec1(F, m) ==
@@ -193,6 +209,7 @@ Exec1(F, m) ==
             IF n # 2 THEN FailM(m, "machine") ELSE SetTop(m, Adv([a EXCEPT !.ops = <<a.ops[2], a.ops[1]>>]))
       [] op = "bin_op" ->
             IF n < 2 THEN FailM(m, "machine")
+            ELSE IF Fuzzy(Deref(m, a.ops[n - 1])) \/ Fuzzy(Deref(m, a.ops[n])) THEN OomM(m, "arithmetic on a position in an unordered list")
             ELSE LET r == BinResult(m, a1, a.ops[n - 1], a.ops[n]) IN
                  IF r.st.status = "type" THEN OomM(m, "bin_op " \o a1 \o " on " \o Deref(m, a.ops[n - 1]).t \o "," \o Deref(m, a.ops[n]).t)
                  ELSE IF r.st.status # "ok" THEN FailM(m, r.st.status)
@@ -264,7 +281,7 @@ Exec1(F, m) ==
       [] op = "lookup" ->        \* a built-in method of a vector / string / function value; the receiver comes back through ld_self
             IF n # 1 THEN FailM(m, "machine")
             ELSE LET r == Deref(m, TopV(a)) IN
-                 IF r.t \in {"list", "str", "fn"} /\ a1 \in BuiltinNames THEN SetTop(m, Adv([a EXCEPT !.ops = <<[t |-> "bfn", m |-> a1]>>]))
+                 IF r.t \in {"list", "str", "fn", "map"} /\ a1 \in BuiltinNames THEN SetTop(m, Adv([a EXCEPT !.ops = <<[t |-> "bfn", m |-> a1]>>]))
                  ELSE IF r.t = "obj" THEN          \* Object::get_property: a field, else the method `Class::name`
                       LET o == m.objs[r.id]
                           q == o.cls \o "::" \o a1 IN
@@ -291,7 +308,10 @@ Exec1(F, m) ==
                  ELSE LET r == Builtin(recv, f.m, rest, HeapOf(m)) IN
                       IF r.st.status = "type" THEN OomM(m, "built-in " \o f.m \o " on " \o recv.t)
                       ELSE IF r.st.status # "ok" THEN FailM(m, r.st.status)
-                      ELSE [SetTop(m, Adv([a EXCEPT !.ops = IF f.m \in VoidBuiltins THEN <<>> ELSE <<r.v>>])) EXCEPT !.lists = r.st.lists]
+                      ELSE [SetTop(m, Adv([a EXCEPT !.ops = IF f.m \in VoidBuiltins THEN <<>>
+                                                           ELSE IF f.m = "index_of" /\ recv.t = "list" /\ recv.id \in m.unord /\ r.v.t = "int"
+                                                                THEN <<[t |-> "int", v |-> r.v.v, fz |-> TRUE]>> ELSE <<r.v>>])) EXCEPT !.lists = r.st.lists, !.maps = r.st.maps,
+                                 !.unord = IF recv.t = "map" /\ f.m \in {"keys", "values", "pairs"} THEN @ \cup {r.v.id} ELSE @]
       [] op = "call" ->
             IF Len(ar) >= 1 THEN
                  LET fi == FnIndex(F, a1) IN
@@ -344,6 +364,17 @@ Exec1(F, m) ==
       [] op = "ptr_mut" ->
             IF n < 2 \/ ~IsPtr(a.ops[n - 1]) THEN FailM(m, "machine")
             ELSE PtrSet(SetTop(m, Adv([a EXCEPT !.ops = SubSeq(@, 1, n - 2)])), a.ops[n - 1], Deref(m, a.ops[n]))
+      [] op = "make_map" -> [SetTop(m, Adv(PushV(a, VMap(Len(m.maps) + 1)))) EXCEPT !.maps = Append(@, <<>>)]
+      [] op = "fast_map_insert" ->      \* map literal: `map[..]{k: v}` - the map and the key are in registers, the value on the stack
+            LET cm == Local(m, a1) ck == IF Len(ar) >= 2 THEN Local(m, ar[2]) ELSE 0 IN
+            IF n = 0 \/ cm = 0 \/ ck = 0 THEN FailM(m, "machine")
+            ELSE IF m.cells[cm].t # "map" THEN FailM(m, "machine")
+            ELSE [SetTop(m, Adv(PopV(a))) EXCEPT !.maps[m.cells[cm].id] = MapPut(@, m.cells[ck], Deref(m, TopV(a)), HeapOf(m))]
+      [] op = "map_op" ->               \* `m[k]`: a pointer to the entry (which need not exist yet)
+            LET cm == Local(m, a1) IN
+            IF n = 0 \/ cm = 0 THEN FailM(m, "machine")
+            ELSE IF m.cells[cm].t # "map" THEN FailM(m, "machine")
+            ELSE SetTop(m, Adv(PushV(PopV(a), MView(m.cells[cm].id, Deref(m, TopV(a))))))
       [] op = "make_object" ->
             [SetTop(m, Adv(PushV(a, VObj(Len(m.objs) + 1)))) EXCEPT
                 !.objs = Append(@, [cls |-> F[a.fi].name, vars |-> m.frames[Len(m.frames)].vars])]
@@ -382,5 +413,13 @@ Settle(F, m) ==
     ELSE IF TopA(m).ip >= Len(F[TopA(m).fi].code) THEN Settle(F, Return(m, FALSE, VNil, 1))
     ELSE m
 
-Step(F, m) == Settle(F, Exec1(F, m))
+(* a read through a map pointer whose key is absent yields nil (GcMap::get); only the read-modify-write of an *)
+(* op-assignment through such a pointer is the failure "key"                                                  *)
+KeyFailure(F, m) ==
+    LET a == TopA(m)
+        ins == F[a.fi].code[a.ip + 1]
+        n == Len(a.ops) IN
+    ins.op = "bin_op_assign" /\ Len(ins.args) < 2 /\ n >= 2 /\ Dangling(m, a.ops[n - 1])
+
+Step(F, m) == IF KeyFailure(F, m) THEN FailM(m, "key") ELSE Settle(F, Exec1(F, m))
 =============================================================================
